@@ -30,6 +30,17 @@ func VerifC02VerifyExec(cs *ChainService, blk *types.Block) (root []byte, receip
 	return ex.BlockState.GetRoot(), ex.BlockState.Receipts(), err
 }
 
+// VerifC02VerifyExecState is VerifC02VerifyExec returning the executor's block state as well (the harness reads
+// account balances from it: who was paid the block reward).
+func VerifC02VerifyExecState(cs *ChainService, blk *types.Block) (bs *state.BlockState, err error) {
+	ex, err := newBlockExecutor(cs, nil, blk, true)
+	if err != nil {
+		return nil, err
+	}
+	err = ex.execute()
+	return ex.BlockState, err
+}
+
 // VerifC02SetSkipMempool switches the tx sign verifier to "sync" mode (no mempool actor lookups);
 // signatures are then verified with the real key.VerifyTx.
 func VerifC02SetSkipMempool(cs *ChainService, v bool) { cs.setSkipMempool(v) }
@@ -39,7 +50,8 @@ func VerifC02GetReceipts(cs *ChainService, blockHash []byte) (*types.Receipts, e
 	return cs.getReceipts(blockHash)
 }
 
-// VerifC02SetCoinbase sets the package-level coinbase account (chain.Init reads it from the config).
+// VerifC02SetCoinbase sets the package-level coinbase account (chain.Init reads it from the config). Kept for
+// compatibility; harness c02 now configures it through the node's config and assigns the exported variable.
 func VerifC02SetCoinbase(a []byte) { CoinbaseAccount = a }
 
 // VerifC02CommitProduced is what the chain service does with a block this node produced, minus the chain DB
